@@ -8,6 +8,9 @@ if args and args[0] in ("quick", "thorough"):
     tier = args.pop(0)
 seeds = [int(a) for a in args] or [2, 3, 4, 5]
 checks = [c["property_id"] for c in json.load(open("/verif/MANIFEST.json"))["checks"]]
+only = __import__("os").environ.get("MULTISEED_ONLY")
+if only:
+    checks = [c for c in checks if c in only.split(",")]
 bad = []
 for s in seeds:
     for c in checks:
